@@ -2,6 +2,7 @@ package main
 
 import (
 	"math/rand"
+	"strings"
 
 	"verif/idl"
 )
@@ -77,6 +78,80 @@ func augmentTransitive(p *idl.Program, rng *rand.Rand) {
 	}
 	insertDecl(root, at, svc)
 	p.Files = append([]*idl.File{deep, mid}, p.Files...)
+	plantSameNameParents(p)
+	plantDiamond(p)
+}
+
+// plantSameNameParents gives the root three services that are all called
+// ZqBase (local, in zqcore, in zqlegacy) and one child of each, so that
+// "extends changed" can be exercised between parents that differ in the
+// file only.
+func plantSameNameParents(p *idl.Program) {
+	core := &idl.File{Base: "zqcore", Ext: ".frugal", Decls: []*idl.Decl{{Service: &idl.Service{Name: "ZqBase", Methods: []*idl.Method{
+		{Name: "zqPing"}, {Name: "zqVersion", Ret: idl.T("i32")}}}}}}
+	legacy := &idl.File{Base: "zqlegacy", Ext: ".frugal", Decls: []*idl.Decl{{Service: &idl.Service{Name: "ZqBase", Methods: []*idl.Method{
+		{Name: "zqDescribe", Ret: idl.T("string"), Args: []*idl.Field{{ID: 1, Name: "zqWhat", Type: idl.T("string")}}}}}}}}
+	root := p.Root()
+	root.Includes = append(root.Includes, &idl.Include{Path: core.FileName()}, &idl.Include{Path: legacy.FileName()})
+	at := len(root.Decls)
+	for i, d := range root.Decls {
+		if d.Scope != nil {
+			at = i
+			break
+		}
+	}
+	child := func(name, ext, m string) *idl.Decl {
+		return &idl.Decl{Service: &idl.Service{Name: name, Extends: ext, Methods: []*idl.Method{{Name: m, Ret: idl.T("i64"), Args: []*idl.Field{{ID: 1, Name: "zqKey", Type: idl.T("i64")}}}}}}
+	}
+	for k, d := range []*idl.Decl{
+		{Service: &idl.Service{Name: "ZqBase", Methods: []*idl.Method{{Name: "zqLocal", Ret: idl.T("bool")}}}},
+		child("ZqStoreCore", "zqcore.ZqBase", "zqGetCore"),
+		child("ZqStoreLocal", "ZqBase", "zqGetLocal"),
+		child("ZqStoreLegacy", "zqlegacy.ZqBase", "zqGetLegacy"),
+	} {
+		insertDecl(root, at+k, d)
+	}
+	p.Files = append([]*idl.File{core, legacy}, p.Files...)
+}
+
+// plantDiamond makes zqshared reachable from the root through three parents:
+// zqfirst and zqthird name it in a constant and an unused alias only (they can
+// drop the include compatibly), zqsecond uses it in an audited field and keeps
+// it.  The audit visits includes in alphabetical order, depth first:
+// zqfirst before zqsecond before zqthird.
+func plantDiamond(p *idl.Program) {
+	shared := &idl.File{Base: "zqshared", Ext: ".frugal", Decls: []*idl.Decl{
+		{Enum: &idl.Enum{Name: "ZqKind", Values: []*idl.EnumValue{{Name: "ZQ_CASH", Value: 0}, {Name: "ZQ_CARD", Value: 1}}}},
+		{Struct: &idl.Struct{Kind: idl.KindStruct, Name: "ZqMoney", Fields: []*idl.Field{{ID: 1, Name: "zqAmount", Type: idl.T("i32")}, {ID: 2, Name: "zqCurrency", Type: idl.T("string")}, {ID: 3, Name: "zqKind", Req: idl.ReqRequired, Type: idl.T("ZqKind")}}}},
+	}}
+	loose := func(base, st string) *idl.File {
+		return &idl.File{Base: base, Ext: ".frugal", Includes: []*idl.Include{{Path: shared.FileName()}}, Decls: []*idl.Decl{
+			{TypeDef: &idl.TypeDef{Name: "ZqCash", Type: idl.T("zqshared.ZqMoney")}},
+			{Struct: &idl.Struct{Kind: idl.KindStruct, Name: st, Fields: []*idl.Field{{ID: 1, Name: "zqId", Type: idl.T("i64")}}}},
+			{Const: &idl.Const{Name: "ZQ_DEFAULT_KIND", Type: idl.T("zqshared.ZqKind"), Value: idl.Ident("zqshared.ZqKind.ZQ_CARD")}},
+		}}
+	}
+	first, third := loose("zqfirst", "ZqInvoice"), loose("zqthird", "ZqReceipt")
+	second := &idl.File{Base: "zqsecond", Ext: ".frugal", Includes: []*idl.Include{{Path: shared.FileName()}}, Decls: []*idl.Decl{
+		{Struct: &idl.Struct{Kind: idl.KindStruct, Name: "ZqOrder", Fields: []*idl.Field{{ID: 1, Name: "zqId", Type: idl.T("i64")}, {ID: 2, Name: "zqPrice", Type: idl.T("zqshared.ZqMoney")}}}},
+	}}
+	root := p.Root()
+	for _, f := range []*idl.File{first, second, third} {
+		root.Includes = append(root.Includes, &idl.Include{Path: f.FileName()})
+	}
+	at := len(root.Decls)
+	for i, d := range root.Decls {
+		if d.Scope != nil {
+			at = i
+			break
+		}
+	}
+	insertDecl(root, at, &idl.Decl{Service: &idl.Service{Name: "ZqShop", Methods: []*idl.Method{
+		{Name: "zqOrder", Ret: idl.T("zqsecond.ZqOrder"), Args: []*idl.Field{{ID: 1, Name: "zqId", Type: idl.T("i64")}}},
+		{Name: "zqInvoice", Ret: idl.T("zqfirst.ZqInvoice"), Args: []*idl.Field{{ID: 1, Name: "zqOrderId", Type: idl.T("i64")}}},
+		{Name: "zqReceipt", Ret: idl.T("zqthird.ZqReceipt")},
+	}}})
+	p.Files = append([]*idl.File{shared, first, second, third}, p.Files...)
 }
 
 // transitiveOps are the operators enumerated on the transitive-typedef pool.
@@ -86,6 +161,14 @@ func transitiveOp(e *edit) bool {
 		return true
 	case "introduce-typedef":
 		return e.File == "zqmid" || e.File == "zqdeep"
+	case "change-extends", "remove-extends":
+		return strings.Contains(e.Site, "service Zq")
+	case "drop-include":
+		return true
+	}
+	// the whole catalogue inside the planted shared include
+	if e.File == "zqshared" {
+		return true
 	}
 	return false
 }
